@@ -179,5 +179,27 @@ func diff(a, b any, path, an, bn string) string {
 	if reflect.DeepEqual(a, b) {
 		return ""
 	}
+	if sa, ok := a.(string); ok {
+		if sb, ok := b.(string); ok && (len(sa) > 300 || len(sb) > 300) {
+			// long strings: where they part
+			i := 0
+			for i < len(sa) && i < len(sb) && sa[i] == sb[i] {
+				i++
+			}
+			from := i - 30
+			if from < 0 {
+				from = 0
+			}
+			cut := func(s string) string {
+				to := i + 30
+				if to > len(s) {
+					to = len(s)
+				}
+				return fmt.Sprintf("%q", s[from:to])
+			}
+			return fmt.Sprintf("%s: %s has %d bytes in %d lines, %s has %d bytes in %d lines; they part at byte %d: %s has ...%s..., %s has ...%s...",
+				path, an, len(sa), strings.Count(sa, "\n")+1, bn, len(sb), strings.Count(sb, "\n")+1, i, an, cut(sa), bn, cut(sb))
+		}
+	}
 	return fmt.Sprintf("%s: %s has %s, %s has %s", path, an, clip(show(a)), bn, clip(show(b)))
 }
